@@ -753,8 +753,88 @@ Definition exec_micro (e : exec) (me : nat) (m : micro) : mres :=
           end
       end
 
-  | MLazyDrop => MOk e
-  | MDropLocals => MOk e
+  | MTlsWith k =>
+      (* LocalKey::try_with: initialise on first use by this thread; no rt effect *)
+      match get_thread e me with
+      | None => MFail e (PanicModel 24)
+      | Some t =>
+          if existsb (Nat.eqb k) (t_tls t) then MOk (log_op e me RUnit)
+          else
+            let e := ex_set_log e (LInitTls k (t_body t) :: e_log e) in
+            MOk (log_op (upd_thread e me (fun t => th_set_tls t (t_tls t ++ [k]))) me RUnit)
+      end
+
+  | MLazyGet k =>
+      (* Lazy::get followed by a read of the cell inside the value *)
+      match e_lazy e with
+      | None => MFail e PanicLazyShutdown
+      | Some lz =>
+          let found := find (fun x => Nat.eqb (fst x) k) lz in
+          let r :=
+            match found with
+            | Some (_, (ci, sy)) =>
+                (* try_get: sync_load Acquire *)
+                inl (set_caus e me (sync_load (caus_of e me) sy Acquire), ci)
+            | None =>
+                (* init(): a new cell, written by the initialiser; then registered with sync_store AcqRel *)
+                let e := ex_set_log e (LInitLazy k :: e_log e) in
+                let ci := length (e_objects e) in
+                let e := ex_set_objects e (e_objects e ++ [OCell (cell_new (caus_of e me))]) in
+                let e := causality_inc e me in
+                match get_cell e ci with
+                | None => inr (PanicModel 25)
+                | Some s =>
+                    match cell_track_write s (caus_of e me) with
+                    | inr p => inr p
+                    | inl s1 =>
+                        match cell_track_write s1 (caus_of e me) with
+                        | inr p => inr p
+                        | inl s2 =>
+                            let e := upd_object e ci (fun _ => OCell s2) in
+                            let sy := sync_store vv_new (caus_of e me) (rel_of e me) AcqRel in
+                            let e := ex_set_lazy e (Some (lz ++ [(k, (ci, sy))])) in
+                            inl (set_caus e me (sync_load (caus_of e me) sy Acquire), ci)
+                        end
+                    end
+                end
+            end in
+          match r with
+          | inr p => MFail e p
+          | inl (e, ci) =>
+              let e := causality_inc e me in
+              match get_cell e ci with
+              | None => MFail e (PanicModel 25)
+              | Some s =>
+                  if ce_writing s then MFail e PanicCellWriting
+                  else match cell_track_read s (caus_of e me) with
+                       | inr p => MFail e p
+                       | inl s1 =>
+                           match cell_track_read s1 (caus_of e me) with
+                           | inr p => MFail e p
+                           | inl s2 => MOk (log_op (upd_object e ci (fun _ => OCell s2)) me (RVal (N.of_nat (41 + k))))
+                           end
+                       end
+              end
+          end
+      end
+
+  | MLazyDrop =>
+      (* main thread: lazy_statics.drop(); the values are destroyed outside the execution *)
+      match e_lazy e with
+      | None => MOk e
+      | Some lz =>
+          let keys := filter (fun k => existsb (fun x => Nat.eqb (fst x) k) lz) (seq 0 8) in
+          MOk (ex_set_lazy (ex_set_log e (rev (map LDropLazy keys) ++ e_log e)) None)
+      end
+
+  | MDropLocals =>
+      (* thread_done: the thread's locals are destroyed (HashMap order: canonicalised by key) *)
+      match get_thread e me with
+      | None => MFail e (PanicModel 24)
+      | Some t =>
+          let keys := filter (fun k => existsb (Nat.eqb k) (t_tls t)) (seq 0 8) in
+          MOk (ex_set_log e (rev (map (fun k => LDropTls k (t_body t)) keys) ++ e_log e))
+      end
 
   | MTerminate =>
       fst (schedule (upd_thread e me (fun t => th_set_op (th_set_state t Terminated) None)))
